@@ -16,6 +16,7 @@ func checkC04(p *Prog, r *Report) {
 	defer func() {
 		if a := ResolveAnchors(p); len(a.err) == 0 {
 			ruleC04GlobalRef(p, a, r, "R-C04-GLOBALREF")
+			ruleC04MapKeys(p, a, r, "R-C04-MAPKEYS")
 		}
 	}()
 	a := ResolveAnchors(p)
@@ -442,5 +443,92 @@ func ruleC04GlobalRef(p *Prog, a *Anchors, r *Report, rule string) {
 	}
 	if n == 0 {
 		r.OK("none", "-", "no package-level variable is stored into a context map")
+	}
+}
+
+// ruleC04MapKeys: reflect's MapKeys returns the keys in Go's random map order. Wherever execution walks them, they
+// went through a sort first — on every path, not only when the template asks for it.
+func ruleC04MapKeys(p *Prog, a *Anchors, r *Report, rule string) {
+	r.Begin(rule, "keys obtained from reflect.Value.MapKeys are sorted on every path before they are walked: iterating a map from the context gives the same order in every execution", 1)
+	n := 0
+	for _, f := range p.inPkgFuncsSorted(a.ExecReach()) {
+		for _, b := range f.Blocks {
+			for i, in := range b.Instrs {
+				c, ok := in.(*ssa.Call)
+				if !ok || c.Common().StaticCallee() == nil || p.extName(c.Common().StaticCallee()) != "(reflect.Value).MapKeys" {
+					continue
+				}
+				n++
+				key := p.FuncName(f) + ":MapKeys"
+				// values derived from the key slice (conversions to a named sortable type, interfaces of it)
+				derived := map[ssa.Value]bool{c: true}
+				changed := true
+				for changed {
+					changed = false
+					for v := range derived {
+						for _, u := range refs(v) {
+							switch x := u.(type) {
+							case *ssa.ChangeType, *ssa.Convert, *ssa.MakeInterface, *ssa.Phi:
+								if !derived[x.(ssa.Value)] {
+									derived[x.(ssa.Value)] = true
+									changed = true
+								}
+							case *ssa.Call:
+								// sort.Reverse(keys) wraps them
+								if x.Common().StaticCallee() != nil && p.extName(x.Common().StaticCallee()) == "sort.Reverse" && !derived[x] {
+									derived[x] = true
+									changed = true
+								}
+							}
+						}
+					}
+				}
+				isSort := func(x ssa.Instruction) bool {
+					sc, ok := x.(*ssa.Call)
+					if !ok || sc.Common().StaticCallee() == nil {
+						return false
+					}
+					nm := p.extName(sc.Common().StaticCallee())
+					if nm != "sort.Sort" && nm != "sort.Stable" && nm != "sort.Slice" && nm != "sort.SliceStable" && nm != "slices.SortFunc" {
+						return false
+					}
+					return derived[sc.Common().Args[0]]
+				}
+				// walks: IndexAddr / Range / len-bounded loops over a derived value
+				bad := ""
+				nWalks := 0
+				for v := range derived {
+					for _, u := range refs(v) {
+						walk := false
+						switch x := u.(type) {
+						case *ssa.IndexAddr:
+							walk = x.X == v
+						case *ssa.Index:
+							walk = x.X == v
+						case *ssa.Range:
+							walk = true
+						}
+						if !walk {
+							continue
+						}
+						nWalks++
+						if !MustPassFrom(b, i+1, u, isSort) {
+							bad = p.InstrPos(u)
+						}
+					}
+				}
+				switch {
+				case bad != "":
+					r.Bad(key, p.InstrPos(in), "the keys are walked (at %s) on a path on which they were not sorted: the order of a loop over a map changes from execution to execution unless the template says `sorted`", bad)
+				case nWalks == 0:
+					r.Trivial(key, p.InstrPos(in), "the keys are not walked here")
+				default:
+					r.OK(key, p.InstrPos(in), "sorted on every path before being walked")
+				}
+			}
+		}
+	}
+	if n == 0 {
+		r.Trivial("none", "-", "no MapKeys call in execution-reachable code")
 	}
 }
